@@ -51,6 +51,7 @@ type worker[T any, JobType iJob[T]] struct {
 	tickers         []*time.Ticker
 	tickerStops     []chan struct{}
 	mx              sync.RWMutex
+	lifecycle       sync.Mutex // serialises Pause, PauseAndWait, Resume, Stop, Restart and the start of a run
 	ctx             context.Context
 	cancel          context.CancelFunc
 	Configs         configs
@@ -466,12 +467,15 @@ func (w *worker[T, JobType]) goListenToContext() {
 		<-c.Done()
 
 		// Restart cancels the previous run's context; only the listener of the current run may stop the worker
+		w.lifecycle.Lock()
+		defer w.lifecycle.Unlock()
+
 		w.mx.RLock()
 		current := w.ctx == c
 		w.mx.RUnlock()
 
 		if current {
-			w.Stop()
+			w.stop()
 		}
 	}(w.ctx)
 }
@@ -537,6 +541,14 @@ func (w *worker[T, JobType]) stopAndRemoveAllWorkers() {
 }
 
 func (w *worker[T, JobType]) start() error {
+	w.lifecycle.Lock()
+	defer w.lifecycle.Unlock()
+
+	return w.startRun()
+}
+
+// startRun starts a run; the caller holds the lifecycle lock.
+func (w *worker[T, JobType]) startRun() error {
 	// a run is started once: from Initiated (first bind, Resume) or by Restart, which resets the
 	// status first. Binding another queue to a running, paused or stopped worker must not start
 	// a second event loop or change the state.
@@ -610,6 +622,13 @@ func (w *worker[T, JobType]) NumIdleWorkers() int {
 }
 
 func (w *worker[T, JobType]) Pause() error {
+	w.lifecycle.Lock()
+	defer w.lifecycle.Unlock()
+
+	return w.pause()
+}
+
+func (w *worker[T, JobType]) pause() error {
 	switch s := w.status.Load(); s {
 	case running:
 		w.status.Store(paused)
@@ -623,11 +642,20 @@ func (w *worker[T, JobType]) Pause() error {
 }
 
 func (w *worker[T, JobType]) Stop() error {
+	w.lifecycle.Lock()
+	defer w.lifecycle.Unlock()
+
+	return w.stop()
+}
+
+// stop stops the current run; the caller holds the lifecycle lock.
+func (w *worker[T, JobType]) stop() error {
 	switch s := w.status.Load(); s {
 	case stopped:
 		return nil
 	case running:
-		w.PauseAndWait()
+		w.pause()
+		w.WaitUntilFinished()
 	case paused:
 		w.WaitUntilFinished()
 	default:
@@ -652,12 +680,16 @@ func (w *worker[T, JobType]) NumPending() int {
 }
 
 func (w *worker[T, JobType]) Restart() error {
+	w.lifecycle.Lock()
+	defer w.lifecycle.Unlock()
+
 	// If worker is running, pause and wait for ongoing processes
 	switch w.status.Load() {
 	case running:
-		if err := w.PauseAndWait(); err != nil {
+		if err := w.pause(); err != nil {
 			return err
 		}
+		w.WaitUntilFinished()
 		// to remove idle workers if any
 		w.stopAndRemoveAllWorkers()
 	case paused:
@@ -682,10 +714,10 @@ func (w *worker[T, JobType]) Restart() error {
 	}
 	w.mx.Unlock()
 
-	// Reset status to initiated to allow start() to proceed
+	// Reset status to initiated to allow startRun() to proceed
 	w.status.Store(initiated)
 
-	if err := w.start(); err != nil {
+	if err := w.startRun(); err != nil {
 		return err
 	}
 
@@ -724,12 +756,15 @@ func (w *worker[T, JobType]) NumProcessing() int {
 }
 
 func (w *worker[T, JobType]) Resume() error {
+	w.lifecycle.Lock()
+	defer w.lifecycle.Unlock()
+
 	if w.IsStopped() {
 		return ErrNotRunningWorker
 	}
 
 	if w.status.Load() == initiated {
-		return w.start()
+		return w.startRun()
 	}
 
 	if w.IsRunning() {
@@ -747,7 +782,10 @@ func (w *worker[T, JobType]) Context() context.Context {
 }
 
 func (w *worker[T, JobType]) PauseAndWait() error {
-	if err := w.Pause(); err != nil {
+	w.lifecycle.Lock()
+	defer w.lifecycle.Unlock()
+
+	if err := w.pause(); err != nil {
 		return err
 	}
 
